@@ -126,3 +126,65 @@ def run_repo_tests(ck, runs, perturb=30):
                              {"trace": f})
     ck.notes["repository_test_factorizations_validated"] = ck.notes.get("repository_test_factorizations_validated", 0) + ok
     ck.notes["repository_test_factorizations_recorded"] = ck.notes.get("repository_test_factorizations_recorded", 0) + total
+
+
+def run_sched_replay(ck, plan, simulate_plan=(), timeout=900):
+    """SluSched behaviours replayed into the real scheduling layer (drv_sched): for every forest of the plan
+    TLC enumerates the scheduler's state graph (all interleavings of loop test / scheduler section / mark /
+    finish), checks the layer's invariants on every state, and prints one test per transition; the harness executes
+    each on ParallelInit / pxgstrf_scheduler / pxgstrf_mark_busy_descends and compares outputs and complete state.
+    plan: (par, sbnd, P, panel, relax, maxsuper, joinrule); simulate_plan: the same plus (num, depth) for larger forests."""
+    import sched
+    wd = os.path.join(ck.dir, "sched")
+    os.makedirs(wd, exist_ok=True)
+    tlc.stage(wd)
+    sched.driver()
+
+    def one(a):
+        i, item, sim = a
+        par, sbnd, P, ps, rl, ms, jr = item[:7]
+        name = "s%d" % i
+        (tests, pst), r, k = (None, None), None, 0
+        res = sched.generate(wd, name, par, sbnd, P, ps, rl, ms, joinrule=jr, maxidle=(12 if sim else 1),
+                             simulate=(item[7] if sim else None), depth=(item[8] if sim else None), timeout=timeout)
+        if res[0] is None:
+            return item, res[1], 0, None, None, None, ""
+        (tests, pst), r, k = res
+        if not tests or pst is None:
+            return item, r, 0, None, None, None, "no tests printed" if not sim else "sim-none"
+        tp = os.path.join(wd, name + ".tests")
+        sched.write_tests(tp, par, P, ps, rl, tests, pst[0], pst[1], maxsuper=ms)
+        rc, summ, fails, err = sched.replay(tp, os.path.join(wd, name + ".out"))
+        if summ and not fails:
+            os.remove(tp)
+        return item, r, k, rc, summ, fails, err
+    items = [(i, it, False) for i, it in enumerate(plan)] + [(1000 + i, it, True) for i, it in enumerate(simulate_plan)]
+    tot_t = tot_s = 0
+    for item, r, k, rc, summ, fails, err in common.pmap(one, items):
+        key = "sched:%s:P%d:ps%d:rl%d:ms%d:%s" % (item[0], item[2], item[3], item[4], item[5], item[6])
+        if r is not None:
+            ck.model(r["distinct"], r["generated"])
+        if r is None or r["timeout"]:
+            ck.notes["sched_model_timeouts"] = ck.notes.get("sched_model_timeouts", 0) + 1
+            continue
+        ck.case(key)
+        if not r["ok"]:
+            ck.violation(key, "SluSched violates %s for forest %s" % (r["violated"] or r["errors"][:2], item[0]))
+            continue
+        if summ is None and err == "sim-none":
+            ck.notes["sched_simulations_without_complete_behaviour"] = ck.notes.get("sched_simulations_without_complete_behaviour", 0) + 1
+            continue
+        if summ is None:
+            ck.violation(key, "replay harness did not finish (exit %s): %s" % (rc, err))
+            continue
+        tot_t += summ["tests"]
+        tot_s += summ["steps"]
+        if fails:
+            f = fails[0]
+            ck.violation(key, "replay of a SluSched behaviour into the real scheduling layer diverges: %d of %d tests; first: test %s step %s: %s: model %s, code %s "
+                         "(forest %s, P=%d panel=%d relax=%d maxsuper=%d)" % (len(fails), summ["tests"], f["test"], f["step"], f["what"], f["expected"], f["got"],
+                                                                               item[0], item[2], item[3], item[4], item[5]),
+                         {"forest": item[0], "tests": os.path.join(wd, "s*.tests")})
+    ck.notes["sched_replay_tests"] = ck.notes.get("sched_replay_tests", 0) + tot_t
+    ck.notes["sched_replay_steps"] = ck.notes.get("sched_replay_steps", 0) + tot_s
+    ck.traces(tot_t)
